@@ -338,7 +338,9 @@ MANIFEST = {
     "level_text": "Seeded exploration: for every generated call the stub's recorded argv must equal [input] + ['-r' iff the input is "
                   "an existing directory] + extra arguments verbatim and in order + ['-o', output]; CMake must fail (and the script "
                   "must not continue) iff the peer failed in any way; with the real CLI as peer the output tree must equal the tree "
-                  "of a direct invocation, for files, flat and nested directories, missing paths and files with syntax errors.",
+                  "of a direct invocation, for files, flat and nested directories, missing paths and files with syntax errors.  Some "
+                  "drivers call cminx_gen_rst() twice with arguments differing only in punctuation (both calls must reach the peer), "
+                  "some are run again in a second CMake process over the same build directory after the output directory vanished.",
     "level_note": "trusted: CMake 3.25.1 as installed; arguments with ';', empty arguments and unbalanced brackets are outside what "
                   "a CMake list can carry and are not generated",
 }
